@@ -166,7 +166,7 @@ RANK2_OVERRIDES = {
     ('calibration_measurement', 'standard'): V222, ('calibration_measurement', 'plus_tolerance'): V222,
     ('calibration_measurement', 'minus_tolerance'): [[[0.5, 0.25], [0.125, 1.0]], [[2.0, 3.0], [4.0, 5.0]]],
 }
-UNIT_OPTS = [None, 'm', {'$enum': ['Unit', 'SECOND'], 'v': 's'}, 'my-unit', 'u' * 127, 'u' * 128, 'u' * 255]
+UNIT_OPTS = [None, 'm', {'$enum': ['Unit', 'SECOND'], 'v': 's'}, 'my-unit', 'u' * 127, 'u' * 128, 'u' * 255, '']      # '' = no units
 ROUTES = ['kw', 'dict', 'as', 'later', 'setattrs', 'shared-dict']     # shared-dict: one dict object re-used for equal values
 
 
